@@ -498,3 +498,10 @@ HARMLESS += [
  {"id": "h-c16-rank-ties-last", "prop": "C16", "file": _OC, "old": "if optimal_scaling is None or scaling < optimal_scaling:", "new": "if optimal_scaling is None or scaling <= optimal_scaling:"},
  {"id": "h-c16-rank-max-once", "prop": "C16", "file": _OC, "old": "            scaling.extend(\n                [max(comp_values), comp_values.count(max(comp_values))]\n            )", "new": "            comp_max = max(comp_values)\n            scaling.extend([comp_max, comp_values.count(comp_max)])"},
 ]
+_EC = "adcgen/expr_container.py"
+MUTANTS += [
+ {"id": "c06-applybk-only-plain-antisym", "prop": "C06", "file": _EC, "old": "        base, exponent = self.base_and_exponent\n        if isinstance(base, AntiSymmetricTensor):\n            bra_ket_sym = None", "new": "        base, exponent = self.base_and_exponent\n        if self.type_as_str in (\"antisymtensor\", \"amplitude\"):\n            bra_ket_sym = None"},
+ {"id": "c06-applybk-drops-exponent", "prop": "C06", "file": _EC, "old": "                obj_with_sym = Pow(base.add_bra_ket_sym(bra_ket_sym),\n                                   exponent)", "new": "                obj_with_sym = base.add_bra_ket_sym(bra_ket_sym)"},
+ {"id": "c06-applybk-antisym-gets-sym", "prop": "C06", "file": _EC, "old": "                    base.bra_ket_sym is not S.NegativeOne:\n                bra_ket_sym = -1", "new": "                    base.bra_ket_sym is not S.NegativeOne:\n                bra_ket_sym = 1"},
+ {"id": "c06-applybk-loses-assumptions", "prop": "C06", "file": _EC, "old": "        if return_sympy:\n            return obj_with_sym\n        return Expr(obj_with_sym, **self.assumptions)", "new": "        if return_sympy:\n            return obj_with_sym\n        return Expr(obj_with_sym)"},
+]
